@@ -86,6 +86,16 @@ CLAIMED['C15'] = (
     'the pressure-drop formulas feeding the clamps are observed; float-floor ties skipped; sampled correspondence trusted (DESIGN §5)',
     'Lean 4 proof over an exact rational model (partial for turbulent friction) + direct and whole-run differential')
 
+CLAIMED['C17'] = (
+    'Lean theorems over the exact model of HIP_RA_X.Calculate for all rational inputs: volumes are the stated porosity fractions of area x '
+    'thickness, stored heat = rock + fluid part, available = stored x exergy fraction hence available <= stored for a reservoir hotter than the '
+    'rejection temperature (kernel-checked counterexample for the accepted opposite ordering: finding F14), producible <= available, conversion '
+    'efficiency in [0.427, 0.66], exact homogeneity in area and in thickness (extensive x k; per-area, per-volume, per-mass, percentage results as '
+    'stated); tied to the code by hooked HIP-RA-X runs (all 20 outputs recomputed exactly), scaled partner runs and unit-variant partner runs.',
+    'kernel + propext/Classical.choice/Quot.sound; CoolProp values and the utilisation-efficiency interpolation are re-queried inputs; pint factors '
+    'trusted; one known finding (F14); float rounding and the sampled correspondence trusted (DESIGN §5)',
+    'Lean 4 proof over an exact rational model + hooked-run correspondence + paired runs')
+
 PENDING_REASON = 'check not built yet in this commit (work in progress; see DESIGN.md §9 for the order)'
 
 
